@@ -118,6 +118,7 @@ type node struct {
 	problems  []string
 	keyLog    []int // successive distinct values of RemoteKey() as observed
 	initHello int64 // number of InitHello messages emitted
+	impatient atomic.Bool
 }
 
 func (n *node) problem(f string, a ...any) {
@@ -362,6 +363,14 @@ func truncate(s string) string {
 	return s
 }
 
+// sendImpatient is send with a plain deadline, for calls whose failure is an expected outcome and not a
+// verdict (an intruder that is refused): waiting longer on a stalled machine would only cost time.
+func (n *node) sendImpatient(tag string, timeout time.Duration) error {
+	n.impatient.Store(true)
+	defer n.impatient.Store(false)
+	return n.send(tag, timeout)
+}
+
 // send calls Channel.Send with a tagged plaintext and a deadline.
 func (n *node) send(tag string, timeout time.Duration) error {
 	pt := fmt.Sprintf("%s|%s|0123456789abcdef", n.name, tag)
@@ -374,7 +383,17 @@ func (n *node) send(tag string, timeout time.Duration) error {
 	defer cf()
 	done := make(chan error, 1)
 	go func() { done <- n.ch.Send(ctx, p2p.IOVec{[]byte(pt)}) }()
-	err, returned := ev.PatientRecv(timeout, done)
+	var err error
+	var returned bool
+	if n.impatient.Load() {
+		select {
+		case err = <-done:
+			returned = true
+		case <-time.After(timeout):
+		}
+	} else {
+		err, returned = ev.PatientRecv(timeout, done)
+	}
 	if !returned {
 		cf()
 		err = context.DeadlineExceeded
